@@ -34,6 +34,7 @@ type Oblig struct {
 	st      *State // path state (append-only after the obligation was emitted)
 	npc     int    // number of path-list entries that precede the obligation
 	cond    Term
+	decided bool // verdict already fixed (structural checks): not sent to a solver
 }
 
 // TargetRun keeps what is needed to turn a model of an obligation of this target into concrete inputs.
@@ -362,7 +363,7 @@ func (e *Engine) discharge(tmo int) {
 	deadline := time.Now().Add(budget)
 	var retries int32
 	for i, o := range e.obs {
-		if o.Triv {
+		if o.Triv || o.decided {
 			continue
 		}
 		if len(o.Script) > 4<<20 {
